@@ -530,6 +530,16 @@ func (g *CallGraph) analyse(f *ssa.Function) bool {
 			cc := ci.Common()
 			if bi, ok := cc.Value.(*ssa.Builtin); ok {
 				switch bi.Name() {
+				case "append":
+					// append may store into the spare capacity of its first argument's backing array
+					base := cc.Args[0]
+					if sl, ok := base.(*ssa.Slice); ok && sl.Max != nil {
+						break // full slice expression: capacity pinned, append must reallocate
+					}
+					if cst, ok := base.(*ssa.Const); ok && cst.IsNil() {
+						break
+					}
+					addEff("appendto", g.roots(f, base), "append onto "+a.Desc(base), ci.Pos(), self, fieldOf(base))
 				case "copy":
 					addEff("store", g.roots(f, cc.Args[0]), "copy into "+a.Desc(cc.Args[0]), ci.Pos(), self, fieldOf(cc.Args[0]))
 				case "delete":
